@@ -41,7 +41,13 @@ TEval ==
   /\ IsEv("Eval")
   /\ Chk("ActiveExactlyInsideWindow", \A i \in DOMAIN R : (i \in ToSetOf(Ev.active)) = (Overridden(R, Mods, i) \/ Active(R[i].tmin, R[i].tmax, Ev.T)))
   /\ UNCHANGED rvars
-TNext == TAssign \/ TFinish \/ TEval
+(* the batched GPU kernels (text): every system evaluates its rate coefficients -- hence its temperature windows -- from ITS OWN
+   parameter record and ITS OWN slice of the state, in the right-hand-side kernel and in the Jacobian kernel alike *)
+TBatch ==
+  /\ IsEv("Batch")
+  /\ Chk("EachSystemEvaluatesItsOwnRates", Ev.calls > 0 /\ Ev.own_params /\ Ev.own_state)
+  /\ UNCHANGED rvars
+TNext == TAssign \/ TFinish \/ TEval \/ TBatch
 TSpec == TInit /\ [][TNext]_<<rvars, tid, l>>
 Track ==
   /\ Chk("Inv:OnlyTargetsChanged", OnlyTargetsChanged)
